@@ -92,13 +92,16 @@ Hypothesis out_cur : forall k, outok k (pickle (f cur k)).
 Hypothesis meta_ok : metaok meta.
 Hypothesis codew_cur : codew (code cur).
 Hypothesis xok_safe : forall o, safe_op o -> xok o.
+Hypothesis xok_unlink : forall p, xok (Unlink p).
+Hypothesis xok_rmdir : forall p, xok (Rmdir p).
 Hypothesis xok_all : forall o, xok o.
 
 Notation wf := (wf outok metaok codeok codew Extra xok).
 Notation J := (J outok metaok codeok Extra).
 Notation TT := (fun _ => True).
 
-Ltac xs := first [apply xok_safe; simpl; first [exact I | congruence | (repeat split; congruence)] | apply xok_all].
+Ltac xs := first [apply xok_safe; simpl; first [exact I | congruence | (repeat split; congruence)]
+                 | apply xok_unlink | apply xok_rmdir | apply xok_all].
 Ltac wfo := apply wf_op_all; [simpl; auto | xs | intros ?r].
 Ltac wfr := apply wf_ret; auto.
 
